@@ -86,6 +86,8 @@ func init() {
 				{Scenario: "c09_getrace", Params: mustJSON(struct{}{}), Bound: 0, Shards: 2, Note: "a renumbering announced at every scheduling point of a running Get(): the result is the chunk of the old or of the new numbering"},
 				{Scenario: "c10_sd", Params: mustJSON(struct{}{}), Bound: 0, Shards: 4, Note: "leader-assigned numbering: at every instant members that agree on the group size hold distinct numbers (also after a failed Rebalance RPC in steady state)"},
 				{Scenario: "c10_first", Params: mustJSON(FirstParams{Two: true}), Bound: 0, Note: "two numberings announced before the first Get(): the partition is derived from the latest"},
+				{Scenario: "c11_burst", Params: mustJSON(BurstParams{Membership: "dynamic", MaxN: 2}), Bound: 0, Shards: 8, Note: "the real Dcp: after any burst of 1..2 renumberings (also one arriving while the re-open is running) the stream covers the chunk of the latest numbering"},
+				{Scenario: "c10_cb", Params: mustJSON(CBParams{Initial: 3, Event: "hblost", Perms: 1}), Bound: 0, Shards: 4, Note: "couchbase membership: a running instance that drops out of the group (lost heart-beats) does not keep streaming its old share"},
 				{Scenario: "c09_window", Params: mustJSON(struct{}{}), Bound: 0, Shards: 8, Note: "1..3 renumberings inside / outside one rebalance delay window of a real stream: the re-opened stream covers the chunk of the last numbering"},
 			}
 		},
